@@ -37,9 +37,15 @@ C = {
  "C20": ("the same monitors re-run in fma / exact-math / exact-math+fma / checked builds + libm probe + cross-build output diff",
          "Rebuilds the harness against the repo with +fma, with --no-default-features and both, re-runs the C01-C06, C08, C10, C18 (and C09, C16, C17, C19) monitors there (exact builds use the 5e-5 curve budget), probes that the math helpers are libm in exact builds, runs the hostile-float workload in checked variants, and diffs every build's outputs on one seeded input set against the default build.", "4/C20"),
 }
+CONTEXT = (" The same oracle also judges the values in other contexts (section 8.6): images of 1..7 pixels, one image of more than 2^20 (2^24) pixels, letterboxed multi-row images,"
+           " in-domain values next to NaN/inf/out-of-range companions, chained and repeated inputs, sequences of configurations on one thread, a light pass in the FMA build (with a Trace-level logger installed)"
+           " and in the exact-math build, and a cold-start pass (fresh processes whose first calls are made by 2..16 threads at the same moment).")
 checks = []
 for pid in sorted(C):
     tech, text, ref = C[pid]
+    if pid in ("C01", "C02", "C03", "C04", "C05", "C06", "C08", "C09", "C10", "C16", "C17"):
+        text += CONTEXT
+        tech += "; context/sequence/cold-start passes; default + FMA + exact-math builds"
     checks.append({
         "property_id": pid,
         "quick_cmd": f"./check {pid} quick",
